@@ -41,10 +41,7 @@ ASSUMPTIONS = ["CPython random.randrange / random.choice / random.choices (bisec
                "Python int arithmetic = Z arithmetic; local time zone = UTC"]
 EXHAUSTIVE = {"quick": False, "thorough": False}
 
-F_OFFSET = "C11-K4-offset-discarded"
-F_EQUAL = "C11-K10-bounds-within-one-second"
-F_SUBSEC = "C11-K11-subsecond-start-truncated"
-F_ZEROP = "C11-K12-zero-probability-choice-item"
+F_NAIVE = "C11-K13-timezone-false-rejected"
 
 
 # ------------------------------------------------------------------------------------------------
@@ -363,7 +360,8 @@ def coq_case(case, obs):
             if any(v is None for v in vals):
                 return None              # unexpected value shape: the oracle reports it
             return f"CFree {f} {C.clist(vals)}"
-        return f"CInjected {f} {DEN} [] {C.cnat(rows)} None (Err {C.cerr(obs['err'])})"
+        # the model must fail whatever the draws are: give it draws, so that only a genuine error matches
+        return f"CInjected {f} {DEN} {C.clist(['0'] * rows)} {C.cnat(rows)} None (Err {C.cerr(obs['err'])})"
     uses_below = case["kind"] == "number" or (case["kind"] == "choice" and case["form"] == "list")
     draws = obs["below"] if uses_below else obs["rand"]
     widths = C.copt(obs["widths"], lambda w: C.clist(C.cz(x) for x in w)) if uses_below else "None"
@@ -510,47 +508,15 @@ def violation_class(case, obs, msg):
 
 
 def match_finding(case, obs, msg, findings):
-    """Only the exact input classes of the recorded defects; the observed values must also be
-    explained by the recorded behaviour (inside the interval the code is known to produce)."""
+    """Only the exact input class of the recorded defect: datetime_between with `timezone: False` over a
+    valid range raises (naive Faker result compared with aware bounds).  Anything else is a violation."""
     ids = {f["id"] for f in findings}
-    if msg == "model-disagreement":
+    if msg == "model-disagreement" or F_NAIVE not in ids:
         return None
-    k = case["kind"]
-    if k == "choice" and msg.startswith("choice: random_choice with weights") and case["form"] == "choices":
-        ws = choice_weights(case)
-        if "err" in obs and any(w == 0 for w in ws) and F_ZEROP in ids:
-            return F_ZEROP
-        return None
-    if k != "datetime" or not msg.startswith("datetime:"):
-        return None
-    bs = dt_bounds(case, obs)
-    if bs[0] is None or bs[1] is None:
-        return None
-    (s_lo, s_hi, sw_lo, sw_hi, s_off, s_frac), (e_lo, e_hi, ew_lo, ew_hi, e_off, e_frac) = bs
-    any_off = s_off or e_off
-    coded_lo = (sw_lo // US) * US
-    coded_hi = max(ew_hi // US, sw_hi // US + 1) * US
-    vals = obs.get("ok")
-    cls = msg.split(":")[1].strip()
-    if vals is None:
-        # a valid range rejected: explained only by discarded offsets making the wall clocks disordered
-        if cls == "rejected" and any_off and ew_lo < sw_hi and F_OFFSET in ids:
-            return F_OFFSET
-        return None
-    if not all(v[0] == "dt" for v in vals):
-        return None
-    # (1) whole-second granularity, on the instants as written (independent of the offset defect)
-    inst_lo = (s_lo // US) * US
-    inst_hi = max(e_hi // US, s_hi // US + 1) * US
-    if all(inst_lo <= v[1] <= inst_hi for v in vals):
-        if cls == "after" and (e_hi // US) - (s_lo // US) <= 0:
-            return F_EQUAL if F_EQUAL in ids else None
-        if cls == "before" and s_frac:
-            return F_SUBSEC if F_SUBSEC in ids else None
-    # (2) offsets dropped: values inside the interval of the wall-clock readings
-    if any_off and all(coded_lo <= v[1] <= coded_hi for v in vals) and cls in ("before", "after", "empty"):
-        return F_OFFSET if F_OFFSET in ids else None
-    return None                          # not the recorded behaviour: a different defect
+    if case["kind"] == "datetime" and case.get("tz") == "false" and "err" in obs \
+            and msg.startswith("datetime: rejected"):
+        return F_NAIVE
+    return None
 
 
 # ------------------------------------------------------------------------------------------------
@@ -732,8 +698,8 @@ def gen_choice(rng, tier):
         else:
             labels = [rng.randint(1, 12) for _ in range(k)]      # duplicates allowed
         ws = gen_weights(rng, k)
-        if form == "choices" and rng.random() < 0.75:
-            ws = [w if w else rng.choice([4, 40, 1]) for w in ws]  # mostly outside the known zero-probability defect
+        if form == "choices" and rng.random() < 0.3:
+            ws = [w if w else rng.choice([4, 40, 1]) for w in ws]
         items = [[lab, (None if form == "list" else w), rng.choice(["pct", "pct", "num", "str", "flt"])] for lab, w in zip(labels, ws)]
         base = {"kind": "choice", "form": form, "items": items}
         if form == "list":
@@ -859,7 +825,7 @@ def gen_datetime(rng, tier):
     styles = ["yaml", "str", "yaml_sp", "str_sp"]
     for i in range(n):
         ymd = gen_day(rng)
-        clean = rng.random() < 0.6          # offset-free, whole-second start, span >= 2 s: the class the property holds on
+        clean = rng.random() < 0.6          # offset-free, whole-second start, span >= 2 s
         s = ab(*ymd, H=rng.randint(0, 23), M=rng.randint(0, 59), S=rng.randint(0, 59), style=rng.choice(styles))
         if clean:
             span = rng.choice([2, 3, 59, 60, 3600, 86400, 86399, 86401, rng.randint(2, 10 ** 5), rng.randint(2, 10 ** 9)]) * US
@@ -892,7 +858,8 @@ def gen_datetime(rng, tier):
             which = rng.random() < 0.5
             relspec = gen_rel(rng, "ywd")
             s, e = (relspec, e) if which else (s, relspec)
-        tz = rng.choice([None, None, None, None, "false", [rng.randint(-11, 12), rng.choice([0, 0, 30, 45])]])
+        tz = rng.choice([None, None, None, None, None, None, [rng.randint(-11, 12), rng.choice([0, 0, 30, 45])],
+                         [rng.randint(-11, 12), rng.choice([0, 0, 30, 45])], "false"])
         base = {"kind": "datetime", "start": s, "end": e, "tz": tz}
         out.append(dict(base, draws=draws(rng, "ends")))
         if rng.random() < 0.5:
